@@ -97,7 +97,8 @@ where
     }
     fn get_request_id(&mut self) -> &mut RequestId;
     fn push_pdu(&mut self, pdu: SnmpPdu, buf: &mut Buffer) -> SnmpResult<()>;
-    fn unwrap_pdu<'a>(&'a mut self, msg: Self::Message<'a>) -> Option<SnmpPdu<'a>>;
+    // `raw` is the whole datagram the message has been decoded from
+    fn unwrap_pdu<'a>(&'a mut self, msg: Self::Message<'a>, raw: &'a [u8]) -> Option<SnmpPdu<'a>>;
     //
     fn recv_socket<'a>(io: &mut Socket, buf: &'a mut Buffer) -> SnmpResult<&'a [u8]> {
         match io.recv(buf.as_mut()) {
@@ -156,7 +157,7 @@ where
         // We can catch unwanted replies, so do it in a loop
         loop {
             // Nested scope to release io early after receiving message
-            let msg = {
+            let (msg, raw) = {
                 let io = self.get_io();
                 if let (true, Some(d)) = (skipped, deadline) {
                     // Wait only for the rest of the request timeout
@@ -169,9 +170,9 @@ where
                 }
                 let data = Self::recv_socket(io, buf)?;
                 // Decode message
-                Self::Message::try_from(data)?
+                (Self::Message::try_from(data)?, data)
             };
-            match self.unwrap_pdu(msg) {
+            match self.unwrap_pdu(msg, raw) {
                 Some(ref pdu) => {
                     return Python::with_gil(|py| Ok(T::to_python(pdu, iter, py)?.into()));
                 }
